@@ -5,12 +5,21 @@ from pvlib import Reporter, write_evidence, tlc_gen, pv, read_ndjson, log, OUT, 
 from p_bnf import universe, R_WIDE, with_
 
 
-def lang_spaces(tier, n_quick=4, n_thorough=5):
+def lang_spaces(tier, n_quick=4, n_thorough=5, fam=True):
     n = n_quick if tier == "quick" else n_thorough
     nsim = 25 if tier == "quick" else 800
-    return [{"constants": with_(universe(tier), LangN=n, ForLL=True)},
-            {"constants": with_(R_WIDE, LangN=n, ForLL=True), "simulate": nsim, "nshards": 16, "depth": 12,
-             "invariants": ["Emit"]}]
+    sp = [{"constants": with_(universe(tier), LangN=n, ForLL=True)},
+          {"constants": with_(R_WIDE, LangN=n, ForLL=True), "simulate": nsim, "nshards": 16, "depth": 12,
+           "invariants": ["Emit"]},
+          # lookahead-set families: S: X | Y with arbitrary two-coloured tries of depth 3 as lookahead automata
+          {"module": "Gen_Fam", "constants": {"NTerm": 2, "L": 3, "LangN": 3}, "invariants": ["Emit", "LangIsFamily"],
+           "nshards": 9, "every": 6 if tier == "quick" else 1, "spec": "Spec"}]
+    if not fam:
+        return sp[:2]
+    if tier != "quick":
+        sp.append({"module": "Gen_Fam", "constants": {"NTerm": 3, "L": 2, "LangN": 2},
+                   "invariants": ["Emit", "LangIsFamily"], "nshards": 9, "every": 1, "spec": "Spec"})
+    return sp
 
 
 def lr_spaces(tier):
@@ -27,7 +36,7 @@ def describe(first, ev, run_ev):
     return key, f"grammar {json.dumps(first.get('vec', {}).get('g'))[:300]}"
 
 
-def ll_check(prop, tier, replay, do_gen, tv_sample, tv_every, rule, focus, evalw=False, lr=False, write=True):
+def ll_check(prop, tier, replay, do_gen, tv_sample, tv_every, rule, focus, evalw=False, lr=False, write=True, fam=None):
     t0 = time.time()
     rep = Reporter(prop, tier)
     vec_path = os.path.join(OUT, f"{prop}_{tier}.vec.ndjson")
@@ -40,17 +49,17 @@ def ll_check(prop, tier, replay, do_gen, tv_sample, tv_every, rule, focus, evalw
         tv_every = 1
     else:
         with open(vec_path, "w") as fall:
-            for si, sp in enumerate(lr_spaces(tier) if lr else lang_spaces(tier)):
+            for si, sp in enumerate(lr_spaces(tier) if lr else lang_spaces(tier, fam=(prop in ("C01", "C08") or tier != "quick") if fam is None else fam)):
                 part = vec_path + f".{si}"
-                gen = tlc_gen("Gen_LR" if lr else "Gen_Lang", sp["constants"],
+                gen = tlc_gen(sp.get("module") or ("Gen_LR" if lr else "Gen_Lang"), sp["constants"],
                               sp.get("invariants", ["Emit", "MergeOnlyAdds"] if lr else ["Emit", "LangIsFixpoint"]),
                               sp.get("nshards", 16), part, run_prefix=f"{prop}_{tier}_{si}",
-                              simulate=sp.get("simulate"), depth=sp.get("depth", 20))
+                              simulate=sp.get("simulate"), depth=sp.get("depth", 20), **({"spec": sp["spec"]} if sp.get("spec") else {}))
                 if gen["violated"]:
                     raise ToolError(f"spec invariant {gen['violated']} violated in Gen_Lang:\n" + gen["out"][-3000:])
                 seen = set()
-                for l in open(part):
-                    if l not in seen:
+                for li, l in enumerate(open(part)):
+                    if l not in seen and li % sp.get("every", 1) == 0:
                         seen.add(l)
                         fall.write(l)
                 os.remove(part)
@@ -100,7 +109,9 @@ def ll_check(prop, tier, replay, do_gen, tv_sample, tv_every, rule, focus, evalw
 
 
 RULE = ("grammars: every well-formed left-recursion-free grammar of the exhaustive universe plus guided random walks over the "
-        "wide universe (TLC emits the grammar with its bounded language Lang(G,n)); each is written as PAR text and taken through "
+        "wide universe plus (C01, C08; all in thorough) the lookahead-set families of Gen_Fam.tla (S: X | Y with every assignment of the "
+        "strings of length 3 over {a,b} to X, Y or neither: arbitrary two-coloured tries as lookahead automata, k = 3) "
+        "(TLC emits the grammar with its bounded language Lang(G,n)); each is written as PAR text and taken through "
         "parol's whole pipeline (parse, check/transform, lookahead analysis K<=3, source generation) and the generated tables are run by "
         "the real LLKParser. GEN: every string over terminals + one foreign token up to length n, recovery on and off, Ok iff member "
         "of Lang. TV: for a sample of inputs (sentences and non-sentences) x 3 texts (plain, two decorated with comments/newlines) x 6 "
